@@ -146,7 +146,7 @@ pub fn run_partition_case(rec: &mut Recorder, mode: &str, n: u64, tag: &str, pli
     }
     if mode == "c42" {
         if let POut::Panic(w) = &out {
-            if w != "conflicted-refs" && w != "no-merge-pair-same-node" {
+            if w != "conflicted-refs" {
                 rec.check(false, &format!("c42-panic@{w}"), "partition_graph panicked");
             }
         }
@@ -155,8 +155,8 @@ pub fn run_partition_case(rec: &mut Recorder, mode: &str, n: u64, tag: &str, pli
     } else if let POut::Ok(pv) = &out {
         oracle::check_c18(rec, &flat, pv);
     } else if let POut::Panic(w) = &out {
-        // a panic other than the two rejection asserts is a failure for C18 as well
-        if w != "conflicted-refs" && w != "no-merge-pair-same-node" {
+        // a panic other than the conflicted-reference assert is a failure for C18 as well
+        if w != "conflicted-refs" {
             rec.check(false, &format!("c18-panic@{w}"), "partition_graph panicked");
         }
     }
